@@ -11,6 +11,7 @@ import (
 	"strings"
 	"time"
 
+	"github.com/RoaringBitmap/roaring"
 	"github.com/akrennmair/updog"
 	"go.etcd.io/bbolt"
 )
@@ -105,6 +106,9 @@ func makeDamaged(valid, path string, d Damage) {
 					b.Put(kk, []byte("\xff\xffnot a roaring bitmap"))
 				case "empty":
 					b.Put(kk, []byte{})
+				case "emptyroaring": // a valid serialisation of a bitmap without any value: decodable
+					eb, _ := roaring.New().ToBytes()
+					b.Put(kk, eb)
 				case "half":
 					v := b.Get(kk)
 					b.Put(kk, append([]byte{}, v[:len(v)/2]...))
@@ -219,7 +223,7 @@ func allDamages() []Damage {
 	ds := []Damage{{Kind: "absent"}, {Kind: "garbage"}, {Kind: "empty"}, {Kind: "bolt", Bucket: false, S: "good", I: "good", V: "good"}}
 	for _, s := range []string{"good", "missing", "bad"} {
 		for _, i := range []string{"good", "missing", "short", "long"} {
-			for _, v := range []string{"good", "bad", "missing", "empty", "half"} {
+			for _, v := range []string{"good", "bad", "missing", "empty", "half", "emptyroaring"} {
 				ds = append(ds, Damage{Kind: "bolt", Bucket: true, S: s, I: i, V: v})
 			}
 		}
@@ -255,6 +259,30 @@ func runC15(rep *Report, r *Rng, tier string) {
 					}
 					runOpenCase(o, valid, c, rep)
 				}
+			}
+		}
+		os.Remove(valid)
+	}
+	// options whose argument is nil cannot fail: the open succeeds, Close releases the file
+	{
+		valid := scratch("valid-nilopts.updog")
+		os.Remove(valid)
+		buildIndexFile("mem", genDataSpecN(r, 30, false).Materialize(), valid)
+		for name, opt := range map[string]updog.IndexOption{"WithCache(nil)": updog.WithCache(nil), "WithIndexMetrics(nil)": updog.WithIndexMetrics(nil)} {
+			res := watchdog(20*time.Second, func() string {
+				idx, err := updog.OpenIndex(valid, opt)
+				if err != nil {
+					return "err: " + err.Error()
+				}
+				idx.Close()
+				return "ok"
+			})
+			rep.Eval("nilopt-"+name, true)
+			if res != "ok" && !strings.HasPrefix(res, "err") {
+				rep.Violate(Violation{Kind: "input", Signature: "C15:open-" + strings.SplitN(res, ":", 2)[0], What: "OpenIndex with " + name, Expected: "ok or error", Actual: res, Case: map[string]any{"option": name}})
+			}
+			if s := releasedProbe(valid); s != "released" {
+				rep.Violate(Violation{Kind: "fault", Signature: "C15:not-released-after-failed-open", What: "file still locked after OpenIndex with " + name + " (" + res + ")", Expected: "released", Actual: s, Case: map[string]any{"option": name}})
 			}
 		}
 		os.Remove(valid)
@@ -510,6 +538,61 @@ func runC06(rep *Report, r *Rng, tier string) {
 		runCrashCase(o, &CrashCase{Data: d, Writer: "mem", Poll: true}, rep)
 		rep.Count("polled-cases")
 	}
+	// second Flush of the same writer onto its own output, after more rows were added: either it is refused and the
+	// first complete index stays, or every commit point of the second Flush leaves a file that is rejected or answers
+	// like one of the two complete indexes
+	{
+		path := scratch("reflush.updog")
+		os.Remove(path)
+		w := updog.NewIndexWriter(path)
+		rowsA := (&DataSpec{Seed: r.U64(), NRows: 1500, Cols: []ColSpec{{Name: hx("u"), NVals: 1, Dist: "unique", Style: "ascii"}, {Name: hx("g"), NVals: 5, Dist: "random", Style: "ascii"}}}).Materialize()
+		for _, rw := range rowsA {
+			w.AddRow(rw)
+		}
+		if err := w.Flush(); err != nil {
+			infra("flush: %v", err)
+		}
+		probes := []QCase{{E: &Ex{Op: "N", Kids: []*Ex{{Op: "E", C: hx("g"), V: hx("0")}}}, GB: []string{hx("g")}}, {E: &Ex{Op: "E", C: hx("u"), V: hx("1499")}}, {E: &Ex{Op: "E", C: hx("u"), V: hx("2999")}}, {E: &Ex{Op: "E", C: hx("u"), V: hx("2000")}, GB: []string{hx("g")}}}
+		answers := func(p string) string {
+			idx, _, err := openIdx(p, false, -1)
+			if err != nil {
+				return "rejected"
+			}
+			defer idx.Close()
+			var parts []string
+			for i := range probes {
+				parts = append(parts, safeExecute(idx, toQuery(&probes[i])))
+			}
+			return strings.Join(parts, " / ") + " / " + schemaString(idx.GetSchema())[:40]
+		}
+		first := answers(path)
+		for i := 1500; i < 3000; i++ {
+			w.AddRow(map[string]string{"u": fmt.Sprint(i), "g": fmt.Sprint(i % 5)})
+		}
+		var snaps []string
+		updog.VerifSetCommitHook(func(site string) {
+			s := scratch(fmt.Sprintf("reflush-snap-%d.updog", len(snaps)))
+			copyFile(path, s)
+			snaps = append(snaps, s)
+		})
+		err2 := w.Flush()
+		updog.VerifSetCommitHook(nil)
+		final := answers(path)
+		rep.Eval("reflush", true)
+		rep.Count("second-flush-cases")
+		if err2 != nil && final != first {
+			rep.Violate(Violation{Kind: "crash-prefix", Signature: "C06:partial-file-accepted", What: "a refused second Flush changed what the output answers", Expected: trunc(first, 200), Actual: trunc(final, 200), Case: map[string]any{"reflush": true}})
+		}
+		for si, s := range snaps {
+			a := answers(s)
+			if a != "rejected" && a != first && a != final {
+				rep.Violate(Violation{Kind: "crash-prefix", Signature: "C06:partial-file-accepted", What: fmt.Sprintf("the file as of commit point %d of a second Flush of the same writer opens as an index but answers like neither complete index", si), Expected: "rejected, or " + trunc(first, 120) + ", or " + trunc(final, 120), Actual: trunc(a, 200), Case: map[string]any{"reflush": true, "point": si}})
+				break
+			}
+			os.Remove(s)
+		}
+		os.Remove(path)
+	}
 	if tier == "thorough" {
 		runKillCreate(rep, r)
 	}
@@ -549,7 +632,14 @@ func runKillCreate(rep *Report, r *Rng) {
 				args = []string{"create", "-b", "-o", out, csvPath}
 			}
 			cmd := exec.Command(updogBin, args...)
-			cmd.Env = append(os.Environ(), "TMPDIR="+scratchDir)
+			tmpdir := scratchDir
+			if k%2 == 1 {
+				if d, err := os.MkdirTemp("/dev/shm", "updog-verif-"); err == nil { // another file system than the output
+					tmpdir = d
+					defer os.RemoveAll(d)
+				}
+			}
+			cmd.Env = append(os.Environ(), "TMPDIR="+tmpdir)
 			if err := cmd.Start(); err != nil {
 				infra("start create: %v", err)
 			}
@@ -587,7 +677,8 @@ func runKillCreate(rep *Report, r *Rng) {
 // ---------- C16 ----------
 
 type ClobberCase struct {
-	Pre    string `json:"pre"`    // empty | index | garbage | readonly
+	Big    bool   `json:"big,omitempty"` // the in-process writer holds >= 65536 distinct values
+	Pre    string `json:"pre"`    // empty | index | garbage | readonly | foreignbolt
 	Writer string `json:"writer"` // mem | create | create-big
 }
 
@@ -605,6 +696,15 @@ func runClobberCase(valid, csvPath string, c *ClobberCase, rep *Report) {
 	case "readonly":
 		copyFile(valid, path)
 		os.Chmod(path, 0444)
+	case "foreignbolt": // somebody else's bbolt database: valid, but not an updog index
+		db, err := bbolt.Open(path, 0644, boltOpts)
+		if err == nil {
+			db.Update(func(tx *bbolt.Tx) error {
+				b, _ := tx.CreateBucketIfNotExists([]byte("precious"))
+				return b.Put([]byte("k"), []byte("v"))
+			})
+			db.Close()
+		}
 	}
 	defer func() { os.Chmod(path, 0644); os.Remove(path) }()
 	before := sha(path)
@@ -615,6 +715,11 @@ func runClobberCase(valid, csvPath string, c *ClobberCase, rep *Report) {
 			w := updog.NewIndexWriter(path)
 			w.AddRow(map[string]string{"a": "1"})
 			w.AddRow(map[string]string{"a": "2", "b": "x"})
+			if c.Big { // a writer holding 70000 distinct (column,value) pairs
+				for i := 0; i < 70000; i++ {
+					w.AddRow(map[string]string{"u": fmt.Sprint(i)})
+				}
+			}
 			if err := w.Flush(); err != nil {
 				return "err"
 			}
@@ -671,7 +776,11 @@ func runC16(rep *Report, r *Rng, tier string) {
 	}
 	csvPath := scratch("c16.csv")
 	writeCSV(csvPath, rows[:min(len(rows), 20)])
-	for _, pre := range []string{"empty", "index", "garbage", "readonly"} {
+	for _, pre := range []string{"empty", "index"} {
+		runClobberCase(valid, csvPath, &ClobberCase{Pre: pre, Writer: "mem", Big: true}, rep)
+		rep.Count("clobber-cases")
+	}
+	for _, pre := range []string{"empty", "index", "garbage", "readonly", "foreignbolt"} {
 		for _, w := range []string{"mem", "create", "create-big"} {
 			c := &ClobberCase{Pre: pre, Writer: w}
 			if rep.Evaluations < 2 {
